@@ -140,6 +140,7 @@ func runC07(c *eng.Ctx) {
 			early++
 		}
 		c.Check(early == 0, "no-group-skipped", nil, ie, "the loop over the consumer groups has no early exit", fmt.Sprintf("%d early exits", early))
+		expiryNeedsEveryGroupDrained(c)
 		for i, r := range eng.SuccessReturns(ie) {
 			rv := eng.RetVal(r, 0)
 			if k, isC := rv.(*ssa.Const); isC && k.Value != nil && k.Value.String() == "false" {
